@@ -732,7 +732,7 @@ def gen_factory_program(rng: Any) -> dict[str, Any]:
                     will_crash = True
             spec = {"tid": tid, "via": rng.choice(["start_task", "start_task_soon"]), "from": rng.choice(["owner", "foreign", "foreign_sync", "task", "bare"]),
                     # (0: the task never waits for anything - it is over before whoever spawned it runs again)
-                    "dur": rng.choice([0, 0.125, 0.625, 1.125, 2.625, 5.125]), "outcome": outcome, "exc": rng.choice(["ValueError", "Custom", "Group", "Group1"]),
+                    "dur": rng.choice([0, 0.125, 0.625, 1.125, 2.625, 5.125]), "outcome": outcome, "exc": rng.choice(["ValueError", "Custom", "Group", "Group1", "Frozen"]),
                     "task_status": rng.random() < 0.5, "name": rng.choice([None, f"task{tid}"]),
                     "func_form": rng.choice(["function", "function", "partial", "object", "unhashable_object", "lambda", "decorated"])}
             if rng.random() < 0.3:
